@@ -225,7 +225,7 @@ func checkC04(r *core.Run) {
 // ---------------------------------------------------------------- C05
 
 func checkC05(r *core.Run) {
-	r.Explanation = "C05 (structural clauses only): cancellation — every success path of CancelOrder refunds (RefundOrder succeeded), rolls the model back and removes the order, in that order, and the refund is exactly the recorded order amount from order escrow to the payer's address; every caller removes all of the order's shards first, or is on the pending branch where the order has none; a full refund is only issued before the first completion; nothing is reserved before completion — the operations that only assign providers cannot write pledge records nor take coins from a provider; rollback pairing — removing a data model also removes its expiry-schedule entry unless the schedule consumer is the caller. The payer's balance delta and reassignment histories are not decided."
+	r.Explanation = "C05 (structural clauses only): cancellation — every success path of CancelOrder refunds (RefundOrder succeeded), rolls the model back and removes the order, in that order, and the refund is exactly the recorded order amount from order escrow to the payer's address; every caller removes all of the order's shards first, or is on the pending branch where the order has none; a full refund is only issued before the first completion; nothing is reserved before completion — the operations that only assign providers cannot write pledge records nor take coins from a provider; rollback pairing — removing a data model also removes its expiry-schedule entry unless the schedule consumer is the caller; every field of the stored model that the in-flight marker (UpdateMetaStatusAndCommit) overwrites is assigned again by RollbackMeta (field sets only, not the restored values). The payer's balance delta and reassignment histories are not decided."
 	r.Rule("T-cancel: CancelOrder success => RefundOrder == nil, then RollbackMeta, then RemoveOrder; refund row of the flow table")
 	r.Rule("T-cancel-pre: every call of model.CancelOrder is preceded by a for-all RemoveShard over the order's shards, or dominated by order.Status == Pending; G-refund-state: and by order.Status != Completed")
 	r.Rule("CAP-reserve: {Store, Ready, timeout handler} have no write on node:Pledge/value/ and no bank inflow into the node module")
